@@ -389,6 +389,92 @@ fn sweep_content(cf: &[Vec<u8>], nmax: u32, threads: usize, viol: &Viol, evaluat
     total
 }
 
+/// (e) encoding into a write buffer that is not empty: the connection accepts a few bytes and stalls, further
+/// messages are sent meanwhile (PUB: published; PUSH/DEALER/ROUTER: a send abandoned while it waits, then sent
+/// again), then the connection re-opens. Whatever reaches the wire must be a well-formed RFC-23 stream whose
+/// messages are exactly (a subsequence of, for PUB) the messages sent, each intact.
+fn backlog_scenario(ty: Ty, budget: usize, lens: &[usize], seed: u64) -> Verdict {
+    world::reset(world::WorldCfg { select: false, ..Default::default() });
+    let c = e3::raw_conn("p");
+    c.send(&rc::handshake(ty.peer_type(), Some(b"ID0")));
+    if ty == Ty::Pub {
+        c.send(&rc::encode_message(&[vec![1u8]]));
+    }
+    let msgs: Vec<Vec<Vec<u8>>> = (0..4u64)
+        .map(|k| {
+            let mut m: Vec<Vec<u8>> = lens.iter().enumerate().map(|(i, l)| rc::pattern(*l, (k + 1) * 7919 + i as u64, seed)).collect();
+            m.insert(0, format!("m{}", k).into_bytes());
+            m
+        })
+        .collect();
+    let msgs2 = msgs.clone();
+    let sock = AnySocket::new(ty, None);
+    let be = sock.backend();
+    world::spawn_app("app", async move {
+        let mut sock = sock;
+        let _ = e3::attach_raw(be, c).await;
+        if ty == Ty::Pub {
+            world::idle().await;
+        }
+        let to_app = |m: &Vec<Vec<u8>>| -> zeromq::ZmqMessage {
+            let mut m = m.clone();
+            if ty == Ty::Router {
+                m.insert(0, b"ID0".to_vec());
+            }
+            e1::msg(&m)
+        };
+        let r = sock.send(to_app(&msgs2[0])).await;
+        world::log(format!("send#0 -> {}", e3::ok_or_err(&r)));
+        world::set_wmode(c.from_lib, world::WMode::Budget(budget));
+        for k in 1..3 {
+            // PUB never waits; the others are abandoned once nothing else can happen
+            let r = world::until_idle(sock.send(to_app(&msgs2[k]))).await;
+            world::log(format!("send#{} -> {}", k, r.as_ref().map(|r| e3::ok_or_err(r)).unwrap_or_else(|| "abandoned".into())));
+        }
+        world::set_wmode(c.from_lib, world::WMode::Open);
+        for _ in 0..2 {
+            let r = world::until_idle(sock.send(to_app(&msgs2[3]))).await;
+            world::log(format!("send#3 -> {}", r.as_ref().map(|r| e3::ok_or_err(r)).unwrap_or_else(|| "pending".into())));
+        }
+        world::idle().await;
+        world::set_cond("done");
+        world::wait_cond("never").await;
+        drop(sock);
+    });
+    let end = world::run(2_000_000);
+    let mut v = Verdict::default();
+    v.truncated = end != world::RunEnd::Quiescent;
+    let what = format!("{} sending messages with frame lengths {:?} while its peer's connection accepts {} more bytes and then nothing for a while", ty.name(), lens, budget);
+    let tap = c.tap();
+    let d = rc::decode_stream(&tap, true);
+    if !world::cond("done") && world::panics().is_empty() {
+        v.violate("backlog/app-stuck", format!("{}: the sender did not finish: {:?}", what, world::log_snapshot()));
+    } else if d.error.is_some() || d.consumed != tap.len() {
+        v.violate("backlog/wire-malformed", format!("{}: the bytes on the wire are not a well-formed sequence of complete frames ({:?}; {} of {} bytes parse)", what, d.error, d.consumed, tap.len()));
+    } else {
+        let got = d.messages();
+        // every message on the wire is one of the messages sent, intact, in sending order (repeats of the last one allowed)
+        let mut idx = 0usize;
+        for g in &got {
+            match msgs[idx..].iter().position(|m| m == g) {
+                Some(p) => idx += p,
+                None => {
+                    v.violate(
+                        "backlog/message-on-the-wire-differs-from-what-was-sent",
+                        format!("{}: the wire carries a message of {} frames (lengths {:?}) that is not one of the messages sent, or out of order", what, g.len(), g.iter().map(|f| f.len()).take(8).collect::<Vec<_>>()),
+                    );
+                    break;
+                }
+            }
+        }
+        if !got.contains(&msgs[0]) || !got.contains(&msgs[3]) {
+            v.violate("backlog/message-missing", format!("{}: the first or the last message (sent while the connection accepted data) is not on the wire; {} messages are", what, got.len()));
+        }
+    }
+    v.outcome_hash = rc::fnv(&(tap.len() as u64).to_le_bytes()) ^ world::hash_log(&e3::canon_log());
+    e3::finish(v)
+}
+
 const WIRE_TYPES: [Ty; 6] = [Ty::Push, Ty::Dealer, Ty::Req, Ty::Pub, Ty::Router, Ty::Rep];
 
 pub fn run(tier: Tier, replay: Option<String>) -> i32 {
@@ -557,6 +643,23 @@ pub fn run(tier: Tier, replay: Option<String>) -> i32 {
             }
         }
     }
+    // (e) encoding into a non-empty write buffer
+    let mut n_backlog = 0usize;
+    for ty in [Ty::Pub, Ty::Push, Ty::Dealer, Ty::Router] {
+        for lens in [vec![3usize], vec![0], vec![255, 256], vec![300, 0, 5], vec![70_000]] {
+            for budget in [0usize, 1, 2, 9, 10, 11, 300, 1000] {
+                let lens2 = lens.clone();
+                n_backlog += 1;
+                jobs.push(e3::job(
+                    format!("C01/backlog/{}/{:?}/{}", ty.name(), lens, budget),
+                    json!({"scenario":"backlog","type":ty.name(),"lens":lens,"budget":budget,"seed":seed}),
+                    tier.pick(0, 1),
+                    20_000,
+                    move || backlog_scenario(ty, budget, &lens2, seed),
+                ));
+            }
+        }
+    }
     e3::run_jobs_into(&mut ck, jobs, false);
     let evals = evaluated.load(Ordering::Relaxed) + n_greet + n_ready + ck.coverage.get("e3_executions").and_then(|v| v.as_u64()).unwrap_or(0);
     ck.cov("evaluations", evals);
@@ -566,8 +669,9 @@ pub fn run(tier: Tier, replay: Option<String>) -> i32 {
     ck.cov("ready_encodings_checked", n_ready);
     ck.cov("handshake_scenarios", n_hs as u64);
     ck.cov("socket_wire_scenarios", n_wire as u64);
+    ck.cov("socket_backlog_scenarios", n_backlog as u64);
     ck.cov("content_family_messages", n_content);
-    ck.cov("rule", format!("(a) every message whose frame lengths are in G^N, G={:?}, N<=3 (thorough: + MiB sizes for N<=2, {{0,1,255,256,257}}^4, all splits of 600 bytes) — each distinct length vector is a distinct case and non-trivial (encode, reference decode, library decode all run); (b) 5 versions x 3 mechanisms x as-server greetings; 12 socket types x every identity length 0..=255 (and none) READY encodings; (c) the bytes each of the 9 socket types writes on an attached connection for no identity and every identity length 1..=255 (all schedules with <= {} deviations for none/1 B/255 B, one fewer for the other lengths); (a') every message of <= 3 frames whose bodies are words of length <= 3 over the header-like bytes {{00,01,02,04,ff}} (thorough: + <= 2 frames of length <= 5, <= 4 frames of length <= 2, <= 6 frames of length <= 1); (d) PUSH/DEALER/REQ/PUB/ROUTER/REP each sending every message with frame lengths in {{0,1,255,256,65536}}^(1..2) (thorough: + 3-frame and MiB messages) over a transport that accepts everything or only 3 B / 4093 B per write: application bytes on the wire == RFC-23 encoding of envelope + message. Other frame contents are a pattern keyed by VERIF_SEED (contents never influence codec control flow).", G, tier.pick(1, 2)));
+    ck.cov("rule", format!("(a) every message whose frame lengths are in G^N, G={:?}, N<=3 (thorough: + MiB sizes for N<=2, {{0,1,255,256,257}}^4, all splits of 600 bytes) — each distinct length vector is a distinct case and non-trivial (encode, reference decode, library decode all run); (b) 5 versions x 3 mechanisms x as-server greetings; 12 socket types x every identity length 0..=255 (and none) READY encodings; (c) the bytes each of the 9 socket types writes on an attached connection for no identity and every identity length 1..=255 (all schedules with <= {} deviations for none/1 B/255 B, one fewer for the other lengths); (a') every message of <= 3 frames whose bodies are words of length <= 3 over the header-like bytes {{00,01,02,04,ff}} (thorough: + <= 2 frames of length <= 5, <= 4 frames of length <= 2, <= 6 frames of length <= 1); (d) PUSH/DEALER/REQ/PUB/ROUTER/REP each sending every message with frame lengths in {{0,1,255,256,65536}}^(1..2) (thorough: + 3-frame and MiB messages) over a transport that accepts everything or only 3 B / 4093 B per write: application bytes on the wire == RFC-23 encoding of envelope + message; (e) PUB/PUSH/DEALER/ROUTER encoding into a write buffer that is NOT empty (the connection accepts 0..1000 more bytes and stalls while further messages are published / sent and abandoned, then re-opens): the wire is a well-formed stream of exactly the messages sent, each intact. Other frame contents are a pattern keyed by VERIF_SEED (contents never influence codec control flow).", G, tier.pick(1, 2)));
     ck.cov("exhaustive", true);
     ck.cov("traces_validated_against_impl", evals);
     ck.sample(json!({"message_frame_lengths": [255, 256, 0], "rfc_encoding_prefix": rc::hex(&rc::encode_message(&[vec![1u8; 255], vec![2u8; 256], vec![]])[..2])}));
@@ -606,6 +710,11 @@ fn run_replay(path: &str) -> i32 {
                 return crate::replay::replay_e3(&v, |p| {
                     let ty = Ty::from_name(p["type"].as_str()?)?;
                     let seed = p["seed"].as_u64().unwrap_or(0);
+                    if p["scenario"] == "backlog" {
+                        let lens: Vec<usize> = p["lens"].as_array()?.iter().map(|x| x.as_u64().unwrap() as usize).collect();
+                        let budget = p["budget"].as_u64()? as usize;
+                        return Some(std::sync::Arc::new(move || backlog_scenario(ty, budget, &lens, seed)) as zvcore::explore::Scenario);
+                    }
                     if p["scenario"] == "wire" {
                         let lens: Vec<usize> = p["lens"].as_array()?.iter().map(|x| x.as_u64().unwrap() as usize).collect();
                         let limit = p["limit"].as_u64().map(|x| x as usize);
